@@ -574,16 +574,38 @@ def it_next(it, st, itv, fr):
                         yield from it_next(it, s4, It(kind, inner, f, 0, one), fr)
                     continue
                 yield from it_next(it, s3, It(kind, inner, f, 0, as_iter(it, s3, sub)), fr)
-    elif kind == 'chars':             # src: BStr (ASCII only within the claim; non-ASCII -> Unsupported at use)
+    elif kind == 'chars':             # src: BStr holding well-formed UTF-8 (the &str invariant): one path per sequence length
         s = src
-        if pos >= len(s.bytes):
+        K = len(s.bytes)
+        if pos >= K:
             yield st, itv, None
             return
         for s2, more in fork_bool(it, st, z3.UGT(s.len, bv(pos))):
-            if more:
-                yield s2, It('chars', s, None, pos + 1), z3.ZeroExt(24, s.bytes[pos])
-            else:
+            if not more:
                 yield s2, itv, None
+                continue
+            b0 = s.bytes[pos]
+            ze = lambda b: z3.ZeroExt(24, b)
+            cases = [(z3.ULT(b0, 0x80), 1)]
+            if pos + 1 < K:
+                cases.append((z3.And(z3.UGE(b0, 0xC0), z3.ULT(b0, 0xE0)), 2))
+            if pos + 2 < K:
+                cases.append((z3.And(z3.UGE(b0, 0xE0), z3.ULT(b0, 0xF0)), 3))
+            if pos + 3 < K:
+                cases.append((z3.UGE(b0, 0xF0), 4))
+            for s3, ci in it.fork_on(s2, [c for c, _ in cases]):
+                n = cases[ci][1]
+                if n == 1:
+                    ch = ze(b0)
+                elif n == 2:
+                    ch = (ze(b0 & 0x1F) << 6) | ze(s.bytes[pos + 1] & 0x3F)
+                elif n == 3:
+                    ch = (ze(b0 & 0x0F) << 12) | (ze(s.bytes[pos + 1] & 0x3F) << 6) | ze(s.bytes[pos + 2] & 0x3F)
+                else:
+                    ch = (ze(b0 & 0x07) << 18) | (ze(s.bytes[pos + 1] & 0x3F) << 12) | (ze(s.bytes[pos + 2] & 0x3F) << 6) | ze(s.bytes[pos + 3] & 0x3F)
+                if n > 1:
+                    s3.pc.append(z3.UGE(s.len, bv(pos + n)))
+                yield s3, It('chars', s, None, pos + n), z3.simplify(ch)
     elif kind == 'bytes':             # str::bytes / slice of bytes by value
         s = src
         if pos >= len(s.bytes):
@@ -1188,6 +1210,31 @@ def M_chars_as_str(it, ctx, args, st):
     yield st, st.ref(bstr_slice(src, bv(pos), src.len))
 
 
+def utf8_of_char(c):
+    """UTF-8 encoding of a code point (BV32) as a bounded string of 1..4 bytes"""
+    x8 = lambda e: z3.Extract(7, 0, e)
+    n = z3.If(z3.ULT(c, 0x80), bv(1), z3.If(z3.ULT(c, 0x800), bv(2), z3.If(z3.ULT(c, 0x10000), bv(3), bv(4))))
+    one = [x8(c)]
+    two = [x8(0xC0 | z3.LShR(c, 6)), x8(0x80 | (c & 0x3F))]
+    three = [x8(0xE0 | z3.LShR(c, 12)), x8(0x80 | (z3.LShR(c, 6) & 0x3F)), x8(0x80 | (c & 0x3F))]
+    four = [x8(0xF0 | z3.LShR(c, 18)), x8(0x80 | (z3.LShR(c, 12) & 0x3F)), x8(0x80 | (z3.LShR(c, 6) & 0x3F)), x8(0x80 | (c & 0x3F))]
+    zero = z3.BitVecVal(0, 8)
+    bs = []
+    for i in range(4):
+        bs.append(z3.simplify(z3.If(n == 1, one[i] if i < 1 else zero, z3.If(n == 2, two[i] if i < 2 else zero, z3.If(n == 3, three[i] if i < 3 else zero, four[i])))))
+    return BStr(tuple(bs), n)
+
+
+def M_char_encode_utf8(it, ctx, args, st):
+    c = args[0] if not isinstance(args[0], Ptr) else st.deref_all(args[0])
+    yield st, st.ref(utf8_of_char(c))
+
+
+def M_char_len_utf8(it, ctx, args, st):
+    c = args[0] if not isinstance(args[0], Ptr) else st.deref_all(args[0])
+    yield st, utf8_of_char(c).len
+
+
 def M_chars(it, ctx, args, st):
     yield st, It('chars', sval(st, args[0]))
 
@@ -1644,6 +1691,7 @@ MODELS = [
     (ITER + r'enumerate', M_adaptor('enumerate')), (ITER + r'rev', M_iter_rev),
     (ITER + r'collect::<.*>', M_collect), (ITER + r'count', M_count), (ITER + r'all::<.*>', M_all), (ITER + r'any::<.*>', M_any),
     (ITER + r'find::<.*>', M_find), (ITER + r'position::<.*>', M_position),
+    (P + r'char::methods::<impl char>::encode_utf8', M_char_encode_utf8), (P + r'char::methods::<impl char>::len_utf8', M_char_len_utf8),
     (P + r'str::<impl str>::bytes', M_str_bytes), (P + r'str::<impl str>::split::<char>', M_str_split_char_real),
     (P + r'str::<impl str>::strip_suffix::<char>', M_strip_suffix_char),
     (P + r'str::<impl str>::splitn::<&str>', M_str_splitn_str), (P + r'slice::<impl \[.*\]>::split_first', M_split_first),
